@@ -16,7 +16,7 @@ BLOB = (200, 700)
 RULE = ("Hypothesis byte-backed generator: one command with 1-4 variables, the numeric target (INT/UINT/HEX x size 1,2,4 and the "
         "unsupported sizes 3,8; RW or WO) at a generated position behind valid arguments of random types, with/without write "
         "handler, need_all on/off, random previous value; target text from weighted classes: boundary values min-1,min,max,max+1, "
-        "2^31, 2^32, 2^63, 2^64 +-{0,1,5}, 2^64*k+small, 1-40 leading zeros, digit counts up to the capacity, sign variants "
+        "2^31, 2^32, 2^63, 2^64 +-{0,1,5}, 2^64*k+small, width boundaries followed by 1-12 further digits, 1-40 leading zeros, digit counts up to the capacity, sign variants "
         "(+,-,--,+-,sign only, sign on unsigned), hex with 0x/0X, mixed case, missing prefix, empty digits, >16 digits, embedded "
         "garbage, empty field, spaces, random digit strings. Plus an enumerated sweep of every type x width x boundary neighbourhood. "
         "Non-trivial = the target text is malformed, or its value lies within 1 of a width boundary, or exceeds 2^32, or has >=18 "
@@ -51,7 +51,18 @@ def fmt_val(d, t, val):
 def target_text(d, v, cap):
     t, sz = v["type"], v["size"]
     rg = ref.num_range(v) or ((-(1 << 23), (1 << 23) - 1) if t == INT else (0, (1 << 24) - 1))
-    cls = d.weighted([(4, "in"), (5, "edge"), (3, "big"), (3, "malformed"), (1, "long"), (1, "random")])
+    cls = d.weighted([(4, "in"), (5, "edge"), (3, "big"), (3, "malformed"), (1, "long"), (1, "random"), (3, "edge-extended")])
+    if cls == "edge-extended":
+        # a width boundary (or a value next to it) followed by further digits: out of range by orders of magnitude, but a
+        # parser that stops accumulating early sees the boundary value
+        base = d.pick([rg[0], rg[1], rg[0] - 1, rg[1] + 1, -(rg[1] + 1), 1 << 31, -(1 << 31), 1 << 32, (1 << 31) - 1, 1 << 63, -(1 << 63), (1 << 64) - 1])
+        if t == HEX:
+            val = abs(base) * (16 ** d.rng(1, 12)) + d.below(16)
+        else:
+            val = abs(base) * (10 ** d.rng(1, 12)) + d.below(10)
+        if base < 0:
+            val = -val
+        return fmt_val(d, t, val), cls
     if cls == "in":
         span = rg[1] - rg[0]
         val = rg[0] + (d.below(span + 1) if span < (1 << 24) else d.below(1 << 32) % (span + 1))
@@ -256,6 +267,10 @@ def _sweep():
                 for dlt in (-2, -1, 0, 1, 2, 5):
                     pts.add(b + dlt)
                     pts.add(-(b + dlt))
+                for dig in (0, 5, 9):
+                    for k in (1, 2, 9):
+                        pts.add(b * 10 ** k + dig)
+                        pts.add(-(b * 10 ** k + dig))
             for val in sorted(pts):
                 if t == HEX:
                     texts = [(b"-" if val < 0 else b"") + b"0x%X" % abs(val), (b"-" if val < 0 else b"") + b"0X%x" % abs(val), b"0x000%X" % abs(val)]
